@@ -176,6 +176,11 @@ func genC03(w *simrt.Choices, tier string, avoid map[string]bool) Case {
 			// a disk fault while a message is being stored, and another transaction
 			// on the same connection afterwards
 			if k.Fault = genFSFault(w, 1); k.Fault.On {
+				if k.Fault.Stall > 0 {
+					// a disk that stalls for longer than the idle timeout while the message is
+					// stored: the timeout is about a silent client, not about a slow server
+					k.Fault.Delta, k.Fault.Len, k.Fault.Stall = w.Choose(3), 3, k.Timeout/2+5*time.Second
+				}
 				add := func(kind, text, rcpt string) {
 					ln := c03Line{Kind: kind, Text: text, Rcpt: rcpt}
 					if kind == "data" {
@@ -421,7 +426,11 @@ func runC03(c *Ctx, cs Case) {
 
 // c03History plays mode A: arbitrary command lines, checked per reply.
 func c03History(c *Ctx, k *c03Case, exp *c03Expect) {
-	cl, err := dialSMTP(c, "client", k.Timeout+90*time.Second)
+	patience := k.Timeout + 90*time.Second
+	if k.Fault.Stall > 0 {
+		patience = 3*k.Timeout + 120*time.Second // the client waits for a server whose disk is slow
+	}
+	cl, err := dialSMTP(c, "client", patience)
 	if err != nil {
 		c.Failf("dial-refused", "%v", err)
 		return
